@@ -318,7 +318,8 @@ class Env:
             if self.flavours:      # a table lookup returns the very same object every time
                 return self.ccache.setdefault((k, hint), Classification(klass=self._ec(k), retry_after_s=hint))
             return Classification(klass=self._ec(k), retry_after_s=hint)
-        if self.flavours and self.ninv % 2 == 0:
+        if self.flavours and self.ninv % 4 in (1, 2):
+            # (two consecutive attempts, then two with the bare ErrorClass)
             # instead of the bare ErrorClass
             return self.ccache.setdefault((k, None), Classification(klass=self._ec(k)))
         return self._ec(k)
